@@ -82,6 +82,46 @@ theorem T_C18_finder_history (vs : List V3) (es : List MeshEvent) (c : V3) (r : 
 example : findInSphereAfter [⟨0, 0, 0⟩, ⟨1, 0, 0⟩] [.move 1 ⟨5, 0, 0⟩, .reassemble [⟨5, 0, 0⟩, ⟨0, 0, 0⟩, ⟨0, 1, 0⟩]]
     ⟨0, 0, 0⟩ (some (3 / 2)) = [1, 2] := by decide +kernel
 
+/-! ### a finder session: all four finders, interleaved with moves and re-assemblies -/
+
+/-- a session can be cut anywhere: the answers after a prefix are those of a fresh session on the vertex list the
+    prefix leaves behind (the finder object carries nothing over) -/
+theorem T_C18_session_split (vs : List V3) (pre ops : List SessOp) :
+    runSession vs (pre ++ ops) = runSession vs pre ++ runSession (stateAfter vs pre) ops := by
+  induction pre generalizing vs with
+  | nil => rfl
+  | cons op pre ih =>
+    simp only [List.cons_append, runSession, stateAfter, List.foldl_cons]
+    cases h : op.answer vs with
+    | none => simp only [h]; exact ih _
+    | some a => simp only [h, List.cons_append]; congr 1; exact ih _
+
+/-- every query of a session — sphere, plane, core, shell — is answered by the stateless finder on the vertex list
+    that is current when it is asked -/
+theorem T_C18_session_query (vs : List V3) (pre : List SessOp) :
+    (∀ c r, runSession vs (pre ++ [.sphere c r]) = runSession vs pre ++ [findInSphere (stateAfter vs pre) c r]) ∧
+    (∀ o n, runSession vs (pre ++ [.plane o n]) = runSession vs pre ++ [findOnPlane (stateAfter vs pre) o n]) ∧
+    (∀ s pts, runSession vs (pre ++ [.core s pts]) = runSession vs pre ++ [findCore (stateAfter vs pre) s pts]) ∧
+    (∀ s pts, runSession vs (pre ++ [.shell s pts]) = runSession vs pre ++ [findShell (stateAfter vs pre) s pts]) := by
+  refine ⟨?_, ?_, ?_, ?_⟩ <;> intros <;> rw [T_C18_session_split] <;> rfl
+
+/-- queries do not change the mesh; a re-assembly replaces the vertex list whatever happened before, so after it the
+    session continues like a fresh one on the new assembly — for the round-shape finder as well as for the geometric one -/
+theorem T_C18_session_reassembly (vs vs' : List V3) (pre post : List SessOp) :
+    stateAfter vs (pre ++ [.reassemble vs']) = vs' ∧
+    runSession vs (pre ++ .reassemble vs' :: post) = runSession vs pre ++ runSession vs' post := by
+  have h : stateAfter vs (pre ++ [.reassemble vs']) = vs' := by
+    simp [stateAfter, List.foldl_append, SessOp.next]
+  refine ⟨h, ?_⟩
+  have : pre ++ SessOp.reassemble vs' :: post = (pre ++ [.reassemble vs']) ++ post := by simp
+  rw [this, T_C18_session_split, h, T_C18_session_split]
+  simp [runSession, SessOp.answer]
+
+example : runSession [⟨0, 0, 0⟩, ⟨1, 0, 0⟩]
+    [.sphere ⟨0, 0, 0⟩ (some (3 / 2)), .move 1 ⟨5, 0, 0⟩, .sphere ⟨0, 0, 0⟩ (some (3 / 2)),
+     .reassemble [⟨5, 0, 0⟩, ⟨0, 0, 0⟩, ⟨0, 1, 0⟩], .sphere ⟨0, 0, 0⟩ (some (3 / 2)), .plane ⟨0, 0, 0⟩ ⟨1, 0, 0⟩]
+    = [[0, 1], [0], [1, 2], [1, 2]] := by decide +kernel
+
 /-- `find_on_plane` returns exactly the vertices that pass `is_point_on_plane` -/
 theorem T_C18_plane (vs : List V3) (o n : V3) (i : Nat) :
     i ∈ findOnPlane vs o n ↔ i < vs.length ∧ onPlane o n (vs.getD i V3.zero) := by
@@ -175,6 +215,16 @@ theorem T_C18_find_shell_rim (vs : List V3) (s : Sketch) (hs : s ∈ sketches) (
     have := (h1 k hlt).1.1
     have hc : s.shellOuterPts.contains k = true := by rw [beq_iff_eq.mp this]; exact hk
     simpa using hc
+
+/-- … hence after any history that ends with a re-assembly `find_shell` returns exactly the vertices of the new
+    assembly that coincide with a rim point of the end face -/
+theorem T_C18_shell_after_reassembly (vs vs' : List V3) (pre : List SessOp) (s : Sketch) (hs : s ∈ sketches)
+    (pts : List V3) :
+    ∃ a, runSession vs (pre ++ [.reassemble vs', .shell s pts]) = runSession vs pre ++ [a] ∧
+      ∀ i, i ∈ a ↔ i < vs'.length ∧ ∃ k, s.isRim k = true ∧ near (vs'.getD i V3.zero) (pts.getD k V3.zero) := by
+  refine ⟨findShell vs' s pts, ?_, fun i => T_C18_find_shell_rim vs' s hs pts i⟩
+  rw [(T_C18_session_reassembly vs vs' pre [.shell s pts]).2]
+  rfl
 
 /-- The shape finder knows no origin: a sketch point is matched by *distance* `< TOL`, with no tolerance relative to the
     size of the coordinates — moving the shape and the mesh together by any vector `t` (plant or georeferenced
@@ -547,6 +597,16 @@ example : fixHand (cubePts.map (fun p => ⟨p.x * (4 / 1000), p.y * (3 / 1000), 
 example : (List.range 8).all (fun i => decide (0 < tp (Hex.ofList (fixHand
     [⟨1, 0, 0⟩, ⟨0, 0, 0⟩, ⟨0, 1, 0⟩, ⟨1, 1, 0⟩, ⟨1, 0, 1⟩, ⟨0, 0, 1⟩, ⟨0, 1, 1⟩, ⟨1, 1, 1⟩])) i)) = true := by
   decide +kernel
+
+/-- the validator behind the request `c18.canon` is sound and complete for the specification: it answers `ok` exactly
+    for the numberings that are `Canonical` (so an accepted result can be fed to `T_C18_unique`) -/
+theorem T_C18_validator (obs ceil : V3) (P : Hex) : canonicalOk obs ceil P = true ↔ Canonical obs ceil P := by
+  simp only [canonicalOk, frontOk, topOk, rhOk, Bool.and_eq_true, List.all_eq_true, decide_eq_true_eq]
+  constructor
+  · rintro ⟨⟨h1, h2⟩, h3⟩; exact ⟨h1, h2, h3⟩
+  · rintro ⟨h1, h2, h3⟩; exact ⟨⟨h1, h2⟩, h3⟩
+
+example : canonicalOk ⟨1 / 2, -10, 1 / 2⟩ ⟨1 / 2, 1 / 2, 10⟩ unitCube = true := by decide +kernel
 
 /-- the unit cube seen from the front (observer on -y, ceiling on +z) is canonical: the hypotheses are satisfiable -/
 example : Canonical ⟨1 / 2, -10, 1 / 2⟩ ⟨1 / 2, 1 / 2, 10⟩ unitCube :=
